@@ -60,8 +60,8 @@ def install(eng):
                     st.model = m
                     raise PathEnd('resource', ('input-controlled-allocation', 'allocation size depends on input and can exceed %d bytes (e.g. %d)' % (lim, m.eval(n, model_completion=True).as_long()), st.where()))
                 n = addr_of(eng, st, n, 0, work, 70000)
-            if n > (1 << 32):
-                if st.input_tainted_alloc:
+            if n > (1 << 28):
+                if st.input_tainted_alloc or n <= (1 << 40):
                     raise PathEnd('resource', ('huge-allocation', 'allocation of %d bytes' % n, st.where()))
                 throw(st, '_ZTISt9bad_alloc'); return 0
             if n > eng.max_alloc and st.input_tainted_alloc:
